@@ -218,6 +218,77 @@ def run_mdf_update(mda_name, present):
     return None
 
 
+def run_cc_jac(normalize, order):
+    """Real IDF consistency constraints (a scalar one: gradient path; a two-component one: matrix path): the Jacobian is the derivative of the
+    value (central differences; the constraints are affine or quadratic in the design vector), i.e. (dy/dx - identity on the target
+    columns) / factor; the constraint object wraps its own functions, has type 'eq' and the input names of its coupling function."""
+    from gemseo.algos.design_space import DesignSpace
+    from gemseo.disciplines.analytic import AnalyticDiscipline
+    from gemseo.formulations.idf import IDF
+
+    d1 = AnalyticDiscipline({"y1": "0.3*y2 + x + 1"}, name="D1")
+    d2 = AnalyticDiscipline({"y2": "0.2*y1 - 0.5*x + 2", "w": "x**2 + 0.1*y1"}, name="D2")
+    d3 = AnalyticDiscipline({"f": "w**2 + y1 + y2 + x"}, name="D3")
+    space = DesignSpace()
+    bounds = {"x": (-2.0, 2.0), "y1": (-10.0, 10.0), "y2": (0.0, 4.0), "w": (-1.0, 7.0)}
+    for n in order:
+        space.add_variable(n, lower_bound=bounds[n][0], upper_bound=bounds[n][1], value=0.5)
+    with warnings.catch_warnings():
+        warnings.simplefilter("ignore")
+        f = IDF([d1, d2, d3], "f", space, normalize_constraints=normalize)
+        point = np.array([0.3, 1.2, -0.7, 0.9])
+        for c in f.optimization_problem.constraints:
+            if c.f_type != "eq" or c._func.__self__ is not c or c._jac.__self__ is not c or list(c.input_names) != list(c.coupling_function.input_names):
+                return {"what": "the consistency constraint is not an equality constraint wrapping its own value / Jacobian functions", "constraint": c.name}
+            jac = np.atleast_2d(c.jac(point))
+            h = 1e-6
+            fd = np.zeros_like(jac)
+            for p in range(len(point)):
+                e = np.zeros(len(point))
+                e[p] = h
+                fd[:, p] = (np.atleast_1d(c.evaluate(point + e)) - np.atleast_1d(c.evaluate(point - e))) / (2 * h)
+            if np.abs(jac - fd).max() > 1e-6:
+                return {"what": "the Jacobian of the consistency constraint is not the derivative of its value", "constraint": c.name, "normalize_constraints": normalize,
+                        "design_variables": list(order), "jacobian": jac.tolist(), "finite_differences": fd.round(8).tolist()}
+    return None
+
+
+def run_dopt(n_disciplines, linear, extra):
+    """Real DisciplinaryOpt: the design space is restricted to the inputs of the discipline (or of the chain of the disciplines) and the
+    objective is the discipline's output - also for disciplines declared linear (known finding: ValueError when a variable is filtered out)."""
+    from gemseo.algos.design_space import DesignSpace
+    from gemseo.disciplines.analytic import AnalyticDiscipline
+    from gemseo.formulations.disciplinary_opt import DisciplinaryOpt
+
+    discs = [AnalyticDiscipline({"f": "2*x + 1"}, name="D")] if n_disciplines == 1 else [
+        AnalyticDiscipline({"y": "x + 1"}, name="D1"), AnalyticDiscipline({"f": "2*y + x"}, name="D2")]
+    if linear:
+        for d in discs:
+            d.io.set_linear_relationships()
+    space = DesignSpace()
+    for n in ["x", *extra]:
+        space.add_variable(n, lower_bound=-10.0, upper_bound=10.0, value=1.0)
+    before = list(space.variable_names)
+    scenario = {"disciplines": n_disciplines, "declared_linear": linear, "design_variables": before}
+    with warnings.catch_warnings():
+        warnings.simplefilter("ignore")
+        try:
+            f = DisciplinaryOpt(discs, "f", space)
+        except Exception as e:  # noqa: BLE001
+            return {"what": "DisciplinaryOpt cannot be constructed", **scenario, "exception": repr(e)[:200]}
+        top = f.get_top_level_disciplines()
+        inputs = set(top[0].io.input_grammar)
+        after = list(f.design_space.variable_names)
+        if len(top) != 1 or after != [n for n in before if n in inputs] or f.design_space is not space:
+            return {"what": "the design space of DisciplinaryOpt is not the user's design space restricted to the inputs of the top-level discipline",
+                    **scenario, "after": after, "inputs": sorted(inputs)}
+        value = float(np.ravel(f.optimization_problem.objective.evaluate(np.array([0.5])))[0])
+        expected = 2.0 if n_disciplines == 1 else 3.5
+        if abs(value - expected) > 1e-12:
+            return {"what": "the objective of DisciplinaryOpt is not the output of the (chain of) discipline(s)", **scenario, "value": value, "expected": expected}
+    return None
+
+
 MDF_CASES = [(m, list(p)) for m in ("MDAChain", "MDAGaussSeidel", "MDAJacobi") for r in range(4) for p in itertools.combinations(("y1", "y2", "w"), r)]
 
 
@@ -229,6 +300,12 @@ def scenarios():
             yield {"kind": "idf_build", "linear": linear, "normalize": normalize, "order": list(order)}
     for missing in ((), ("y1",), ("y2",), ("unused",), ("y1", "y2")):
         yield {"kind": "idf_init", "missing": list(missing)}
+    for normalize in (False, True):
+        for order in (("x", "y1", "y2", "w"), ("w", "y2", "x", "y1")):
+            yield {"kind": "cc_jac", "normalize": normalize, "order": list(order)}
+    for n_disc, linear in itertools.product((1, 2), (True, False)):
+        for extra in ((), ("unused",), ("y",)):
+            yield {"kind": "dopt", "disciplines": n_disc, "linear": linear, "extra": list(extra)}
     for m in ("MDAChain", "MDAJacobi"):
         for r in range(4):
             for p in itertools.combinations(("y1", "w", "x2", "unused"), r):
@@ -251,6 +328,10 @@ def _run(s):
             return run_idf_build(s["linear"], s["normalize"], tuple(s["order"]))
         if s["kind"] == "idf_init":
             return run_idf_init(tuple(s["missing"]))
+        if s["kind"] == "cc_jac":
+            return run_cc_jac(s["normalize"], tuple(s["order"]))
+        if s["kind"] == "dopt":
+            return run_dopt(s["disciplines"], s["linear"], tuple(s["extra"]))
         if s["kind"] == "mdf_update":
             return run_mdf_update(s["main_mda"], s["present"])
         return run_mask(tuple(s["sizes"]), tuple(s["subset"]))
@@ -267,6 +348,10 @@ def replay(ob, seed=0):
         kinds = ("idf_init", "idf_build")
     elif "_remove_unused_variables" in ob.func or "MDF._update_design_space" in ob.func or "MDF.get_top_level_disciplines" in ob.func or ob.func.endswith("MDF.__init__"):
         kinds = ("mdf_update",)
+    if "ConsistencyConstraint._jac_to_wrap" in ob.func or "ConsistencyConstraint.__init__" in ob.func:
+        kinds = ("cc_jac",)
+    if "DisciplinaryOpt" in ob.func or "DesignSpace.filter" in ob.func:
+        kinds = ("dopt",)
     for s in scenarios():
         if s["kind"] not in kinds:
             continue
